@@ -577,3 +577,21 @@ fn decoy_block(seed: u64) -> RawBlock {
     b.isut = vec![0; b.isutcnt as usize];
     b
 }
+
+/// The zone of `Content::PingPong`: transitions at PINGPONG_T0 + i (i < n), types alternating.
+pub const PINGPONG_T0: i64 = 1_000_000_000;
+
+pub fn pingpong_spec(n: usize, d: i32) -> ZoneSpec {
+    let n = n.min(400_000);
+    ZoneSpec {
+        version: 2,
+        types: vec![TypeSpec { off: 0, dst: false, desig: b"PPA".to_vec(), isstd: false, isut: false }, TypeSpec { off: d, dst: true, desig: b"PPB".to_vec(), isstd: false, isut: false }],
+        trans: (0..n).map(|i| (PINGPONG_T0 + i as i64, (1 - i % 2) as u8)).collect(),
+        leaps: vec![],
+        rule: None,
+        rule_style: 0,
+        desig_mode: 0,
+        indicators: 0,
+        decoy: 1,
+    }
+}
